@@ -513,7 +513,12 @@ func (c *diskCache) availableOrTryProxy(kind cache.EntryKind, hash string, size 
 
 					verifYield("get.beforeRemoveFailed", key)
 					c.mu.Lock()
-					c.lru.RemoveElement(listElem)
+					// Only drop the entry if it still refers to the file that
+					// we failed to read: a concurrent upload might have replaced
+					// the value of this list element in the meantime.
+					if e, ok := listElem.Value.(*entry); ok && e.value.random == item.random {
+						c.lru.RemoveElement(listElem)
+					}
 					c.mu.Unlock()
 				} else {
 					return rc, item.size, false, nil
